@@ -17,7 +17,9 @@ NAME_RE = re.compile(r'^[A-Za-z_][A-Za-z0-9_]*$')
 
 
 class SchemaError(Exception):
-    pass
+    def __init__(self, msg, rule=None):
+        Exception.__init__(self, msg)
+        self.rule = rule or msg.split(' ')[0]
 
 
 def split_full(full):
@@ -31,7 +33,7 @@ def compute_name(obj, enclosing_ns):
     """The spec's rule for the full name of a named-type definition."""
     name = obj.get('name')
     if not isinstance(name, str) or name == '':
-        raise SchemaError('missing name')
+        raise SchemaError('missing name', 'name-missing')
     if '.' in name:
         ns, n = split_full(name)
     else:
@@ -40,15 +42,15 @@ def compute_name(obj, enclosing_ns):
         if ns is None:
             ns = enclosing_ns
         elif not isinstance(ns, str):
-            raise SchemaError('namespace not a string')
+            raise SchemaError('namespace not a string', 'namespace-not-string')
     if ns == '':
         ns = None
     if not NAME_RE.match(n):
-        raise SchemaError('bad name %r' % n)
+        raise SchemaError('bad name %r' % n, 'name-grammar')
     if ns is not None:
         for part in ns.split('.'):
             if not NAME_RE.match(part):
-                raise SchemaError('bad namespace %r' % ns)
+                raise SchemaError('bad namespace %r' % ns, 'namespace-grammar')
     return ns, n, (ns + '.' + n) if ns else n
 
 
@@ -90,6 +92,7 @@ class Parser:
     def __init__(self, known=None):
         self.env = dict(known or {})      # full name -> node (definitions)
         self.defs_in_order = []
+        self.unions = []
 
     def parse(self, j, ns=None):
         if isinstance(j, str):
@@ -98,15 +101,17 @@ class Parser:
             full = resolve_ref(j, ns)
             return {'k': 'ref', 'full': full}
         if isinstance(j, list):
-            return {'k': 'union', 'branches': [self.parse(b, ns) for b in j]}
+            node = {'k': 'union', 'branches': [self.parse(b, ns) for b in j]}
+            self.unions.append(node)
+            return node
         if isinstance(j, dict):
             return self.parse_complex(j, ns)
-        raise SchemaError('schema must be string, object or array')
+        raise SchemaError('schema must be string, object or array', 'schema-json-kind')
 
     def parse_complex(self, j, ns):
         t = j.get('type')
         if t is None:
-            raise SchemaError('no type')
+            raise SchemaError('no type', 'type-missing')
         if isinstance(t, (dict, list)):
             node = self.parse(t, ns)
         elif t in PRIMS:
@@ -126,7 +131,7 @@ class Parser:
         elif isinstance(t, str):
             node = {'k': 'ref', 'full': resolve_ref(t, ns)}
         else:
-            raise SchemaError('bad type')
+            raise SchemaError('bad type', 'type-json-kind')
         lt = j.get('logicalType')
         if isinstance(lt, str) and lt in LOGICAL_BASE and node['k'] in LOGICAL_BASE[lt]:
             lg = self.logical(lt, j, node)
@@ -152,7 +157,7 @@ class Parser:
 
     def define(self, full, node):
         if full in self.env:
-            raise SchemaError('duplicate definition of %s' % full)
+            raise SchemaError('duplicate definition of %s' % full, 'duplicate-definition')
         self.env[full] = node
         self.defs_in_order.append(full)
 
@@ -171,20 +176,20 @@ class Parser:
         self.define(node['full'], node)
         fields = j.get('fields')
         if not isinstance(fields, list):
-            raise SchemaError('fields')
+            raise SchemaError('fields', 'fields-not-list')
         out = []
         seen = set()
         for f in fields:
             if not isinstance(f, dict):
-                raise SchemaError('field not object')
+                raise SchemaError('field not object', 'field-not-object')
             fn = f.get('name')
             if not isinstance(fn, str) or not NAME_RE.match(fn):
-                raise SchemaError('bad field name')
+                raise SchemaError('bad field name', 'field-name-grammar')
             if fn in seen:
-                raise SchemaError('duplicate field')
+                raise SchemaError('duplicate field', 'duplicate-field')
             seen.add(fn)
             if 'type' not in f:
-                raise SchemaError('field without type')
+                raise SchemaError('field without type', 'field-type-missing')
             ft = self.parse(f['type'], node['ns'])
             fa = f.get('aliases')
             out.append({'name': fn, 'type': ft, 'has_default': 'default' in f, 'default': f.get('default'),
@@ -198,14 +203,14 @@ class Parser:
         node = self.named_common(j, ns, 'enum')
         syms = j.get('symbols')
         if not isinstance(syms, list) or not all(isinstance(s, str) and NAME_RE.match(s) for s in syms):
-            raise SchemaError('symbols')
+            raise SchemaError('symbols', 'symbols-malformed')
         if len(set(syms)) != len(syms):
-            raise SchemaError('duplicate symbols')
+            raise SchemaError('duplicate symbols', 'duplicate-symbol')
         node['symbols'] = syms
         d = j.get('default')
         if d is not None:
             if d not in syms:
-                raise SchemaError('enum default not a symbol')
+                raise SchemaError('enum default not a symbol', 'enum-default-not-symbol')
         node['default'] = d
         self.define(node['full'], node)
         return node
@@ -214,7 +219,7 @@ class Parser:
         node = self.named_common(j, ns, 'fixed')
         size = j.get('size')
         if not isinstance(size, int) or isinstance(size, bool) or size < 0:
-            raise SchemaError('size')
+            raise SchemaError('size', 'fixed-size-malformed')
         node['size'] = size
         self.define(node['full'], node)
         return node
@@ -225,7 +230,28 @@ def parse(j, known=None):
     p = Parser(known)
     node = p.parse(j, None)
     check_refs(node, p.env)
+    for u in p.unions:
+        check_union(u, p.env)
     return node, p.env
+
+
+def union_key(b, env):
+    if b['k'] == 'ref':
+        return 'named:' + b['full']
+    if b['k'] in ('record', 'enum', 'fixed'):
+        return 'named:' + b['full']
+    return b['k']
+
+
+def check_union(u, env):
+    seen = set()
+    for b in u['branches']:
+        if b['k'] == 'union':
+            raise SchemaError('union immediately contains a union', 'nested-union')
+        k = union_key(b, env)
+        if k in seen:
+            raise SchemaError('union has two branches of kind %s' % k, 'duplicate-union-branch')
+        seen.add(k)
 
 
 def check_refs(node, env, seen=None):
@@ -233,7 +259,7 @@ def check_refs(node, env, seen=None):
     k = node['k']
     if k == 'ref':
         if node['full'] not in env:
-            raise SchemaError('unresolved reference %s' % node['full'])
+            raise SchemaError('unresolved reference %s' % node['full'], 'unresolved-reference')
     elif k == 'array':
         check_refs(node['items'], env, seen)
     elif k == 'map':
